@@ -7,6 +7,7 @@
 #[macro_use]
 mod core;
 mod cont;
+mod confine;
 mod csweep;
 mod docsweep;
 mod drops;
